@@ -6,7 +6,9 @@ claims = json.load(open(os.path.join(V, 'harness', 'claims.json')))
 props = [json.loads(l) for l in open(os.path.join(V, 'properties.jsonl'))]
 NOTE = ("Trusted base: Lean 4.33 kernel; axioms propext / Classical.choice / Quot.sound only (audited per theorem on every run, "
         "no sorry/admit/native_decide/bv_decide/added axioms); the hand-written Lean model (modelled, not verified: pandas, PyTorch "
-        "and numpy primitives); the correspondence harness and table translator that tie the model to /repo's working tree on every run. ")
+        "and numpy primitives); the correspondence harness and table translator that tie the model to /repo's working tree on every run "
+        "(sampled, with exhaustive boxes where stated; size ladder / value / dtype / aliasing / history families of harness/stress.py; the quick tier "
+        "triples its budget when the AST fingerprint of torch_frame differs from the recorded one - never an alarm by itself). ")
 checks, na = [], []
 for p in props:
     pid = p['id']
